@@ -618,4 +618,209 @@ theorem dup_priority_rejected (ret : Bool → String → RetExpr) (fds : List SF
         intro hn; exact hr (((hp.map (·.priority)).nodup_iff).1 hn)
   simp [generateFromSFDs, hv, bind, Except.bind]
 
+/-! ### consequences for the generated `Less`: a strict weak order -/
+
+/-- a strict weak order on the elements satisfying `P` -/
+structure StrictWeakOrderOn {α : Type} (P : α → Prop) (less : α → α → Bool) : Prop where
+  irrefl : ∀ a, P a → less a a = false
+  asymm : ∀ a b, P a → P b → less a b = true → less b a = false
+  trans : ∀ a b c, P a → P b → P c → less a b = true → less b c = true → less a c = true
+  incomp_trans : ∀ a b c, P a → P b → P c →
+    (less a b = false ∧ less b a = false) → (less b c = false ∧ less c b = false) →
+    (less a c = false ∧ less c a = false)
+
+theorem lex_strictWeakOrder (lt : V → V → Bool) (ho : StrictTotal lt) (ks : List Key) :
+    StrictWeakOrderOn (WellTyped (V := V) ks) (lex lt ks) where
+  irrefl := fun a _ => lex_irrefl lt ks a
+  asymm := fun a b _ _ h => lex_asymm lt ho ks a b h
+  trans := fun a b c _ _ _ h1 h2 => lex_trans lt ho ks a b c h1 h2
+  incomp_trans := fun a b c ha hb hc h1 h2 => lex_incomp_trans lt ho ks a b c ha hb hc h1 h2
+
+/-- **C08, "it is therefore irreflexive, asymmetric and transitive with transitive
+equivalence".**  The `Less` of every generated sorter is a strict weak order on the values of the
+struct type — value and pointer form alike (the element form does not enter `Less`). -/
+theorem generated_less_strictWeakOrder (lt : V → V → Bool) (ho : StrictTotal lt)
+    (fields : List Field) (fds : List SFD) (hf : allSFDs fields = .ok fds) (hd : Distinct fds)
+    (ss : List Sorter) (hg : generate fields = .ok ss) (s : Sorter) (hs : findSorter s.raw ss = some s) :
+    ∃ ks, IsKeyOrder fds s.raw ks ∧
+      StrictWeakOrderOn (WellTyped (V := V) ks) (fun a b => s.less.eval lt a b) := by
+  obtain ⟨ss', hg', hall⟩ := eval_generate_eq_lex lt ho.irrefl fields fds hf hd
+  rw [hg] at hg'; cases hg'
+  obtain ⟨h0, h1⟩ := hall s.raw
+  have hne : taggedFor fds s.raw ≠ [] := by
+    intro e; rw [h0 e] at hs; cases hs
+  obtain ⟨s', hs', _, heq⟩ := h1 hne
+  rw [hs] at hs'; cases hs'
+  obtain ⟨ks, hk⟩ := isKeyOrder_exists fds hd s.raw
+  refine ⟨ks, hk, ?_⟩
+  have e := heq ks hk
+  have sw := lex_strictWeakOrder lt ho ks
+  exact {
+    irrefl := fun a ha => by rw [e a a ha ha]; exact sw.irrefl a ha
+    asymm := fun a b ha hb h => by rw [e a b ha hb] at h; rw [e b a hb ha]; exact sw.asymm a b ha hb h
+    trans := fun a b c ha hb hc h1 h2 => by
+      rw [e a b ha hb] at h1; rw [e b c hb hc] at h2; rw [e a c ha hc]
+      exact sw.trans a b c ha hb hc h1 h2
+    incomp_trans := fun a b c ha hb hc h1 h2 => by
+      rw [e a b ha hb, e b a hb ha] at h1; rw [e b c hb hc, e c b hc hb] at h2
+      rw [e a c ha hc, e c a hc ha]
+      exact sw.incomp_trans a b c ha hb hc h1 h2 }
+
+/-! ### sorting with a strict weak order
+
+`sort.Sort` / `sort.Stable` are not modelled (their contract is trusted and observed by the
+correspondence run).  What is proved: the order the generated `Less` induces satisfies exactly
+what a comparison sort needs (`!Less(b, a)` is total and transitive), so that a stable merge sort
+driven by it — the reference the correspondence compares `sort.Stable` with — returns an
+ascending permutation of the input that keeps ties in input order. -/
+
+/-- slice elements of the struct type -/
+abbrev Elem (V : Type) [DecidableEq V] (ks : List Key) := { a : Rec V // WellTyped ks a }
+
+def lessE (lt : V → V → Bool) (ks : List Key) (x y : Elem V ks) : Bool := lex lt ks x.1 y.1
+
+theorem sort_ascending_stable_perm (lt : V → V → Bool) (ho : StrictTotal lt) (ks : List Key)
+    (l : List (Elem V ks)) :
+    (stableSort (lessE lt ks) l).Perm l ∧
+    (stableSort (lessE lt ks) l).Pairwise (fun x y => lessE lt ks y x = false) ∧
+    (∀ x y, [x, y].Sublist l → lessE lt ks y x = false →
+      [x, y].Sublist (stableSort (lessE lt ks) l)) := by
+  have htr : ∀ a b c : Elem V ks, (!lessE lt ks b a) = true → (!lessE lt ks c b) = true →
+      (!lessE lt ks c a) = true := by
+    intro a b c h1 h2
+    simp only [Bool.not_eq_true', lessE] at h1 h2 ⊢
+    exact lex_neg_trans lt ho ks a.1 b.1 c.1 b.2 c.2 h1 h2
+  have htot : ∀ a b : Elem V ks, (!lessE lt ks b a || !lessE lt ks a b) = true := by
+    intro a b
+    cases h : lessE lt ks b a
+    · rfl
+    · have := lex_asymm lt ho ks b.1 a.1 h
+      simp only [lessE] at h ⊢
+      simp [this]
+  refine ⟨List.mergeSort_perm _ _, ?_, ?_⟩
+  · have := List.pairwise_mergeSort (le := fun x y => !lessE lt ks y x) htr htot l
+    exact this.imp (by intro a b h; simpa using h)
+  · intro x y hsub hxy
+    exact List.pair_sublist_mergeSort (le := fun x y => !lessE lt ks y x) htr htot
+      (by simpa using hxy) hsub
+
+/-! ### the pinned commit: where the statement fails, and where it does not -/
+
+theorem retOfLegacy_eval_ne (lt : V → V → Bool) (k : Key) (a b : Rec V)
+    (ha : (a k.accessor).isFlag = k.isBool) (hb : (b k.accessor).isFlag = k.isBool)
+    (hne : a k.accessor ≠ b k.accessor) :
+    (retOfLegacy k.isBool k.accessor).eval lt a b = Val.less lt (a k.accessor) (b k.accessor) := by
+  cases hk : k.isBool <;> rw [hk] at ha hb
+  · cases hx : a k.accessor <;> cases hy : b k.accessor <;>
+      simp_all [retOfLegacy, RetExpr.eval, Val.goLt, Val.less, Val.isFlag]
+  · cases hx : a k.accessor <;> cases hy : b k.accessor <;>
+      simp_all [retOfLegacy, RetExpr.eval, Val.truth, Val.less, Val.isFlag]
+    rename_i p q; cases p <;> cases q <;> simp_all
+
+/-- last key of a non-empty descriptor list -/
+def lastIsBool : List SFD → Bool
+  | [] => false
+  | [f] => f.isBool
+  | _ :: g :: rest => lastIsBool (g :: rest)
+
+/-- The pinned commit's rendering is right whenever the lowest-priority key is not a bool (a bool
+in any other position is handled correctly by the `==` guard in front of it). -/
+theorem legacy_eval_chainOf_eq_lex_partial (lt : V → V → Bool) (hirr : ∀ v, lt v v = false) :
+    ∀ (l : List SFD), l ≠ [] → lastIsBool l = false → ∀ (a b : Rec V),
+      WellTyped (l.map keyOf) a → WellTyped (l.map keyOf) b →
+      (priorityBlockLegacy (chainOf l)).eval lt a b = lex lt (l.map keyOf) a b
+  | [], h, _, _, _, _, _ => absurd rfl h
+  | [f], _, hl, a, b, ha, hb => by
+    have hf : f.isBool = false := hl
+    have e : priorityBlockLegacy (chainOf [f]) = priorityBlock (chainOf [f]) := by
+      simp [priorityBlockLegacy, priorityBlock, chainOf, blockWith, retOf, retOfLegacy, hf]
+    rw [e]; exact eval_chainOf_eq_lex lt hirr [f] (by simp) a b ha hb
+  | f :: g :: rest, _, hl, a, b, ha, hb => by
+    have ha' := (wellTyped_cons (keyOf f) ((g :: rest).map keyOf) a).1 ha
+    have hb' := (wellTyped_cons (keyOf f) ((g :: rest).map keyOf) b).1 hb
+    have ih := legacy_eval_chainOf_eq_lex_partial lt hirr (g :: rest) (by simp) hl a b ha'.2 hb'.2
+    show (Cmp.ifEq (keyOf f).accessor (priorityBlockLegacy (chainOf (g :: rest)))
+        (retOfLegacy (keyOf f).isBool (keyOf f).accessor)).eval lt a b
+      = lex lt (keyOf f :: (g :: rest).map keyOf) a b
+    rw [eval_ifEq, lex_cons, ih]
+    by_cases e : a (keyOf f).accessor = b (keyOf f).accessor
+    · rw [if_pos e, if_pos e]
+    · rw [if_neg e, if_neg e]; exact retOfLegacy_eval_ne lt (keyOf f) a b ha'.1 hb'.1 e
+
+/-- With a bool as lowest-priority key the pinned commit's `Less(i, i)` returns that bool. -/
+theorem legacy_less_self_of_bool_last (lt : V → V → Bool) :
+    ∀ (l : List SFD), l ≠ [] → lastIsBool l = true → ∀ (a : Rec V),
+      ∃ f ∈ l, (priorityBlockLegacy (chainOf l)).eval lt a a = (a (accessorOf f)).truth
+  | [], h, _, _ => absurd rfl h
+  | [f], _, hl, a => by
+    have hf : f.isBool = true := hl
+    refine ⟨f, by simp, ?_⟩
+    simp [priorityBlockLegacy, chainOf, blockWith, retOfLegacy, hf, Cmp.eval, RetExpr.eval]
+  | f :: g :: rest, _, hl, a => by
+    obtain ⟨x, hx, h⟩ := legacy_less_self_of_bool_last lt (g :: rest) (by simp) hl a
+    refine ⟨x, List.mem_cons_of_mem _ hx, ?_⟩
+    show (Cmp.ifEq (keyOf f).accessor (priorityBlockLegacy (chainOf (g :: rest)))
+        (retOfLegacy (keyOf f).isBool (keyOf f).accessor)).eval lt a a = _
+    rw [eval_ifEq, if_pos rfl]; exact h
+
+/-- **Witness on the pinned commit** (replayed on the real code by `corpus/C08`): struct
+`{ Flag bool \`gsort:"Flags,1"\` }`, element `{Flag: true}`: the generated `Less(i, i)` is
+`true`, while lexicographic comparison says `false` — `Less` is not irreflexive. -/
+theorem legacy_bool_last_violates :
+    ∃ s, generateLegacy [⟨"Flag", true, ["Flags,1"]⟩] = .ok [s] ∧
+      s.less = .ret (.selJ "Flag") ∧
+      s.less.eval Nat.blt (fun _ => Val.flag true) (fun _ => Val.flag true) = true ∧
+      lex Nat.blt [⟨"Flag", true⟩] (fun _ => (Val.flag true : Val Nat)) (fun _ => Val.flag true) = false := by
+  refine ⟨⟨"Flags", .ret (.selJ "Flag")⟩, ?_, rfl, rfl, rfl⟩
+  have hf : allSFDs [⟨"Flag", true, ["Flags,1"]⟩] = .ok [⟨"Flag", true, "", "Flags", 1⟩] := rfl
+  unfold generateLegacy
+  rw [generateWith_of_sfds _ _ _ hf]
+  simp [generateFromSFDs, groupAll, addFD, sortP, validateAll, validate, priorityTree, chainOf,
+    blockWith, retOfLegacy, accessorOf, bind, Except.bind, pure, Except.pure]
+
+/-! ### non-vacuity: the hypotheses of the main theorem are satisfiable, with a bool as last key,
+an accessor key, two sorters and a pointer form -/
+
+example :
+    let fields : List Field :=
+      [⟨"Name", false, ["ByKind,2", "*ByName,1"]⟩, ⟨"Kind", false, ["ByKind,1,String()"]⟩,
+       ⟨"Done", true, ["ByKind,3"]⟩]
+    ∃ fds ss s, allSFDs fields = .ok fds ∧ Distinct fds ∧ generate fields = .ok ss ∧
+      findSorter "ByKind" ss = some s ∧
+      s.less = .ifEq "Kind.String()" (.ifEq "Name" (.ret (.notIAndJ "Done")) (.lt "Name")) (.lt "Kind.String()") ∧
+      IsKeyOrder fds "ByKind" [⟨"Kind.String()", false⟩, ⟨"Name", false⟩, ⟨"Done", true⟩] ∧
+      WellTyped [⟨"Kind.String()", false⟩, ⟨"Name", false⟩, ⟨"Done", true⟩]
+        (fun acc => if acc = "Done" then Val.flag true else (Val.ord 0 : Val Nat)) := by
+  intro fields
+  have hf : allSFDs fields = .ok
+      [⟨"Name", false, "", "ByKind", 2⟩, ⟨"Name", false, "", "*ByName", 1⟩,
+       ⟨"Kind", false, "String()", "ByKind", 1⟩, ⟨"Done", true, "", "ByKind", 3⟩] := rfl
+  have hd : Distinct [⟨"Name", false, "", "ByKind", 2⟩, ⟨"Name", false, "", "*ByName", 1⟩,
+       ⟨"Kind", false, "String()", "ByKind", 1⟩, ⟨"Done", true, "", "ByKind", 3⟩] := by
+    intro r
+    simp only [taggedFor, List.filter_cons, List.filter_nil]
+    by_cases h1 : "ByKind" = r
+    · subst h1; simp
+    · by_cases h2 : "*ByName" = r
+      · subst h2; simp
+      · simp [h1, h2]
+  refine ⟨_, (groupAll [⟨"Name", false, "", "ByKind", 2⟩, ⟨"Name", false, "", "*ByName", 1⟩,
+       ⟨"Kind", false, "String()", "ByKind", 1⟩, ⟨"Done", true, "", "ByKind", 3⟩]).map
+      (fun e => (⟨e.1, blockWith retOf (priorityTree e.2)⟩ : Sorter)),
+    ⟨"ByKind", .ifEq "Kind.String()" (.ifEq "Name" (.ret (.notIAndJ "Done")) (.lt "Name"))
+    (.lt "Kind.String()")⟩, hf, hd, ?_, ?_, rfl, ?_, ?_⟩
+  · unfold generate
+    rw [generateWith_of_sfds _ _ _ hf, generateFromSFDs_ok _ _ hd]
+  · simp [groupAll, addFD, findSorter, sortP, List.mergeSort, priorityTree, chainOf, blockWith, retOf,
+      accessorOf]
+  · refine ⟨[⟨"Kind", false, "String()", "ByKind", 1⟩, ⟨"Name", false, "", "ByKind", 2⟩,
+      ⟨"Done", true, "", "ByKind", 3⟩], ?_, ?_, ?_⟩
+    · simp [taggedFor]
+      exact List.Perm.swap _ _ _
+    · simp
+    · simp [keyOf, accessorOf]
+  · intro k hk
+    simp at hk
+    rcases hk with rfl | rfl | rfl <;> simp [Val.isFlag]
+
 end GSort
